@@ -65,6 +65,16 @@ CLAIMED = {
             "with a later one; the same triples and random inputs of up to 12 notes go through the real code and TLC "
             "evaluates every clause on the observed views.",
             "Bounded scope; notes are matched by (channel, pitch, onset), unique for well-formed input.", "6 (C06)"),
+    "C08": ("Split", "TLC model check of Split.tla (capacity countdown / open table / boundary queue system) + its initial "
+            "states and seeded random sources run through the real split + TLC trace validation",
+            "TLC explores the reference system message by message on every generated source (<=2 notes incl. same pitch on "
+            "two channels, notes crossing several boundaries, signatures on boundaries and on the final tick, trailing "
+            "rests) x 9 capacity lists, checks countdown and open-table invariants at every step and the acceptor at "
+            "termination; two as-built defect switches show the invariants bite. The same cases and random larger ones "
+            "go through the real code; TLC evaluates piece count, exact capacities, duration sum, closed pieces, "
+            "conservation of the sounding set, re-strike velocity, non-note events at their ticks and source unchanged "
+            "(both views).",
+            "Bounded scope; an event on a boundary is required in the later piece (as the reference system defines).", "6 (C08)"),
 }
 PENDING = {}
 props = [json.loads(l) for l in open(V / "properties.jsonl")]
